@@ -70,6 +70,7 @@ def _unpack(profile, sim, state):
     sim.oracle_checks = part["oracle_checks"]
     sim.known_hits = list(part["known_hits"])
     sim.tainted = set(part["tainted"])
+    sim.peer_steps = set(part.get("peer_fired", []))
     sim.intr_fired = set(part.get("intr_fired", []))
     sim.user.update(state["user"])
     sim.epoch = state["epoch"]
@@ -255,7 +256,9 @@ def nf_diff(profile, full, known, oracle):
     ops = full["ops"]
     if not any(o.get("f") for o in ops):
         return None
-    tainted0 = set(full["tainted"])
+    # the steps at which a peer fault was DELIVERED (not: every step whose object met one later -
+    # an op that merely carried an undelivered F2 tag completed and stays in the fault-free history)
+    tainted0 = set(full.get("peer_fired", full["tainted"]))
     # an interrupt that was delivered counts even if the call went on to return something (numpy
     # swallows exceptions raised while it probes an operand; barril has one bare `except:`)
     took_effect = set(full.get("intr_fired", []))
